@@ -39,6 +39,11 @@ def Kind.isWrite : Kind → Bool
   | .read => false
   | _ => true
 
+/-- two accesses of one resource conflict when at least one is a write (capture / use) -/
+def Conflict (k1 k2 : Kind) : Prop := k1.isWrite = true ∨ k2.isWrite = true
+
+instance (k1 k2 : Kind) : Decidable (Conflict k1 k2) := by unfold Conflict; infer_instance
+
 /-- `MemoryAccessDependency` (graph.rs:79-86); for frames only `node` is meaningful -/
 structure Dep where
   kind : Kind
